@@ -10,7 +10,7 @@ cxx = False
 fixed_lines = 1
 rule = ("scripts = 'l range <min> <max>' followed by 'l data'/'l run' pairs (run = repeated mpt_linepart_linear calls "
         "advancing by raw, all records compared), 'l code', 'l join'; stream 1 enumerates EVERY sequence over the "
-        "5-symbol alphabet {below, at-min, inside, at-max, above} up to length 6 (quick) / 7 (thorough) for 3 ranges "
+        "5-symbol alphabet {below, at-min, inside, at-max, above} up to length 7 (quick) / 8 (thorough) for 3 ranges "
         "(40 sequences per script); stream 2 = runs of 65533..65537 points around the per-part limit, degenerate/"
         "inverted/NULL ranges, code/join boundary operands; stream 3 = random dyadic sequences (multiples of 1/8, "
         "equal neighbours frequent) against random ranges, random code and join operands; values are exactly "
@@ -166,7 +166,7 @@ def _random(tier, seed, scale):
 
 
 def scripts(tier, seed, scale=1):
-    top = 6 if tier == "quick" else 7
+    top = 7 if tier == "quick" else 8
     return _exhaustive(top) + _boundary() + _random(tier, seed, scale)
 
 
